@@ -162,6 +162,20 @@ def kind_rules(chk, runs):
                     "length of a Forward storing adjoint dependencies in a checkpoint minus 1")
 
 
+def same_value(st, sym, v):
+    """'yes' if location sym certainly holds the value v"""
+    if is_lin(v):
+        if st.entails_eq(Lin.sym(sym) - v) == "yes":
+            return "yes"
+        s2 = pure_sym(v)
+        if s2 and st.enum_single(sym) is not None and st.enum_single(sym) == st.enum_single(s2):
+            return "yes"
+        return "unknown"
+    if isinstance(v, Tok):
+        return "yes" if st.enum_single(sym) == v.v else "unknown"
+    return "unknown"
+
+
 def key_rule(chk, rid, runs):
     """tracking key vs. the storages one generator addresses"""
     chk.describe(rid, "the tracking key of a generator that addresses two storages identifies a checkpoint by (storage, step)")
@@ -188,11 +202,54 @@ def key_rule(chk, rid, runs):
                 continue
             scalar = all(len(vals) == 1 for _, vals, _ in pushes)
             cons = f"{run_.construct}#key({c})"
-            chk.decide(rid, cons, False if scalar else None,
-                       f"{run_.owner} reads checkpoints from a storage that varies per operation (RAM or DISK) but records "
-                       f"only the bare step in `{c}`: a RAM and a DISK checkpoint of one step share a key, and the Move-vs-Copy "
-                       "decision and the final leftover guard cannot see the storage level" if scalar else
-                       "tracking elements are tuples; storage component not verified", rel=run_.rel, node=pushes[0][0])
+            if scalar:
+                chk.decide(rid, cons, False,
+                           f"{run_.owner} reads checkpoints from a storage that varies per operation (RAM or DISK) but records "
+                           f"only the bare step in `{c}`: a RAM and a DISK checkpoint of one step share a key, and the Move-vs-Copy "
+                           "decision and the final leftover guard cannot see the storage level", rel=run_.rel, node=pushes[0][0])
+                continue
+            # tuple keys: the storage component must be the storage the write names, and the
+            # element removed at a Move must carry the storage the Move reads from
+            ok = True
+            why = []
+            for rec in it.yields:
+                st = rec.state
+                trk = st.enum_get(f"$trk({c})")
+                if rec.kind == "Forward" and trk == ("in", frozenset(["P"])):
+                    sto = rec.arg(4)
+                    r = same_value(st, f"top({c}).0", sto)
+                    if r != "yes":
+                        ok = None if ok else ok
+                        why.append(f"storage component of the key pushed before {rec.yid} is not the storage written to")
+                if rec.kind == "Move" and trk == ("in", frozenset(["X"])):
+                    src = rec.arg(1)
+                    r = same_value(st, f"popped({c}).0", src)
+                    if r != "yes":
+                        ok = None if ok else ok
+                        why.append(f"storage component of the key removed before {rec.yid} is not the storage moved from")
+            chk.decide(rid, cons, ok, "tracking key is (storage, step) and both components agree with the emitted actions"
+                       if ok else "; ".join(sorted(set(why))), rel=run_.rel, node=pushes[0][0])
+        # the Move-vs-Copy decision of such a generator must look at the storage it reads from
+        import ast as _ast
+        k = 0
+        for n in sorted((x for x in _ast.walk(run_.fn) if isinstance(x, _ast.If)), key=lambda x: x.lineno):
+            ys = lambda body: {getattr(y.value.func, "id", "") for s in body for y in _ast.walk(s)
+                               if isinstance(y, _ast.Yield) and isinstance(y.value, _ast.Call)}
+            a, b = ys(n.body), ys(n.orelse)
+            if ("Move" in a and "Copy" in b) or ("Copy" in a and "Move" in b):
+                mv = [y for s in n.body + n.orelse for y in _ast.walk(s) if isinstance(y, _ast.Yield)
+                      and getattr(y.value.func, "id", "") in ("Move", "Copy")]
+                srcs = {y.value.args[1].id for y in mv if len(y.value.args) > 1 and isinstance(y.value.args[1], _ast.Name)}
+                names = {x.id for x in _ast.walk(n.test) if isinstance(x, _ast.Name)}
+                cons2 = f"{run_.construct}#move-decision[{k}]"
+                k += 1
+                if srcs:
+                    dep = bool(srcs & names)
+                    chk.decide(rid, cons2, True if dep else False,
+                               f"Move-vs-Copy is decided by `{_ast.unparse(n.test)[:80]}`" + (
+                                   ": it takes the storage read from into account" if dep else
+                                   f": it ignores the storage read from ({sorted(srcs)}), so the last read of a checkpoint on one "
+                                   "level is judged by a rule that only fits the other"), rel=run_.rel, node=n)
 
 
 def run(chk, ctx):
